@@ -26,7 +26,8 @@ for p in props:
             "engine": "pyvc",
             "level_claimed": {"category": "proof", "text": P.get("level_text", ""), "design_ref": P.get("design_ref", f"DESIGN.md section 4 ({pid})")},
             "level_note": P.get("level_note", ""),
-            "technique": P.get("technique", "contract-based deductive verification: sidecar contracts on the real functions, VCs generated from the real ASTs by pyvc (path-wise symbolic execution with callee contracts, inferred frames, rely/guarantee yield rule, inductive loop clauses), discharged by z3 with cvc5 as second back end; thorough tier adds a sampled cvc5 cross-check of discharged obligations and a self-test against the committed seeded changes"),
+            "technique": P.get("technique", "contract-based deductive verification: sidecar contracts on the real functions, VCs generated from the real ASTs by pyvc (path-wise symbolic execution with callee contracts, inferred frames, rely/guarantee yield rule, inductive loop clauses), discharged by z3 with cvc5 as second back end; every obligation of every unit in the property's plan counts; thorough tier adds a sampled cvc5 cross-check of discharged obligations, a CPython cross-check of proved postconditions on real executions, and a self-test against the committed seeded changes")
+                         + ("; labelled bounded stand-ins, never counted as proved: " + "; ".join(x["name"] for x in P["standins"]) if P.get("standins") else ""),
         })
 m = {
     "version": 1,
